@@ -258,6 +258,20 @@ def switch_family():
     @gen
     def b2(a):
         return normal(a, 3.0) @ "w" + 20.0
+    if "C06.Switch.edit.changed_index" in OB:       # the recorded known finding: the round trip across an index change
+        sw2 = genjax.switch(b0, b1)
+        for i0, i1 in ((0, 1), (1, 0)):
+            a0 = (jnp.array(i0), (0.5,), (1.0,))
+            t0 = sw2.simulate(KEY, a0)
+            ad = lambda i: (Diff(jnp.array(i), UnknownChange), Diff.no_change((0.5,)), Diff.no_change((1.0,)))
+            new, w, _, bwd = sw2.edit(jrand.fold_in(KEY, 1), t0, Update(C.empty()), ad(i1))
+            back, w2, _, _ = sw2.edit(jrand.fold_in(KEY, 2), new, bwd, ad(i0))
+            nm = ("u", "v")[i0]
+            if not (close(val(back.get_choices()[nm]), val(t0.get_choices()[nm])) and close(w2, -w)):
+                fail("switch.edit across an index change: applying the backward request with the index changed back does not restore "
+                     "the old branch's choice (it is re-simulated) / negate the weight", index=f"{i0}->{i1}->{i0}",
+                     old=val(t0.get_choices()[nm]), restored=val(back.get_choices()[nm]), w=w, w_back=w2)
+        return
     for branches in ((b0, b1), (b0, b1, b2)):
         sw = genjax.switch(*branches)
         n = len(branches)
@@ -295,7 +309,13 @@ def switch_family():
                 # update with an unchanged (possibly out-of-range) index: the executed branch is edited, weight = score change
                 name = ("u", "v", "w")[k]
                 try:
-                    new, w, rd, _ = sw.edit(KEY, tr, Update(C.kw(**{name: 0.75})), Diff.no_change(args))
+                    new, w, rd, bwd_ = sw.edit(KEY, tr, Update(C.kw(**{name: 0.75})), Diff.no_change(args))
+                    back, w_back, _, _ = sw.edit(jrand.fold_in(KEY, 3), new, bwd_, Diff.no_change(args))
+                    if not (close(w_back, -w) and close(back.get_score(), tr.get_score())
+                            and close(val(back.get_choices()[name]), val(tr.get_choices()[name]))):
+                        fail("switch.edit (unchanged index): the backward request does not restore the edited branch's choice with "
+                             "weight -w", idx=idx, n=n, w=w, w_back=w_back, restored=val(back.get_choices()[name]),
+                             old=val(tr.get_choices()[name]))
                 except (ValueError, TypeError) as e:
                     # a valid update (one address of the executed branch, unchanged arguments) must be applied, not rejected
                     fail("switch.edit raises on an update that changes one branch's return value only", idx=idx, n=n,
